@@ -98,7 +98,7 @@ def blocked_kinds(llc):
         s = nfc.llcp.Socket(llc, t)
         if addr is not None:
             s.bind(addr)
-            T.name_conditions(s._tco)
+        T.name_conditions(s._tco)
         return s
 
     def est(addr, **kw):
@@ -203,6 +203,11 @@ class Scenario:
             if self.single is not None:
                 kinds = [k for k in kinds if k[0] == self.single]
             st["olds"] = kinds
+            import nfc.llcp
+            early = nfc.llcp.Socket(llc, nfc.llcp.LOGICAL_DATA_LINK)      # closed by the application while the link is up
+            early.bind(47)
+            early.close()
+            st["early"] = early
             st["runners"] = [Runner(n, f).start() for n, f, s in kinds]
             for srv in st["servers"]:
                 srv.start()
@@ -293,7 +298,9 @@ class Scenario:
         ck.count("service threads seen", len(T.TRACER.threads))
         # ---- later calls
         if self.single is None:
-            for name, fn in later_calls(llc, st["olds"]):
+            extra = [("closed-before:ldl.close", st["early"].close), ("closed-before:ldl.recvfrom", st["early"].recvfrom),
+                     ("closed-before:ldl.sendto", lambda: st["early"].sendto(b"x", 9))] if "early" in st else []
+            for name, fn in later_calls(llc, st["olds"]) + extra:
                 r = Runner(name, fn).start()
                 r.thread.join(HANG_TIMEOUT if hangs < hang_budget else 0.05)
                 if r.thread.is_alive():
@@ -506,7 +513,7 @@ def tie_states(ck):
         out.append((base_state(k, "SHUTDOWN", "C"), "close"))
         out.append((base_state(k, "SHUTDOWN", "C"), "recv"))
         out.append((base_state(k, "SHUTDOWN", "C", pre=1), "close"))
-    n = 6000 if ck.thorough else 500
+    n = 30000 if ck.thorough else 2000
     names = ["I", "DISC", "CONNECT", "CC", "DM", "UI"]
     for _ in range(n):
         k = rng.choice(["raw", "ldl", "dlc", "dlc"])
@@ -571,7 +578,8 @@ def tie_waits(ck, model):
                 print("DIS", st["k"], call, st["st"], st["variant"], "pre", st["pre"], ".".join(script), "\n   M", rep, "\n   I", real)
             ck.fail("tie:wait-structure", "model %r, implementation %r" % (rep, real), {"request": line, "model": rep, "impl": real})
         # ---- the property itself, judged on the real objects (independent of the model)
-        if terminated_at is not None:
+        reachable = st["variant"] != "U" or st["k"] != "dlc" or st["st"] in ("CLOSED", "SHUTDOWN")
+        if terminated_at is not None and reachable:
             replay = {"state": st, "call": call, "script": script, "events": ev, "outcome": out}
             name = "%s.%s" % (st["k"], call.split(":")[0])
             if out.startswith("hang"):
@@ -749,8 +757,11 @@ def run(ck):
     if ck.thorough:
         ck.leanchecker(["NfcVerif.Props.C09"])
     model = Model("drv_c09")
+    import contextlib
+    import io
     tie_waits(ck, model)
-    tie_loops(ck, model)
-    tie_service(ck, model)
-    n = oracle(ck)
+    with contextlib.redirect_stdout(io.StringIO()):      # the KeyboardInterrupt handlers of the run loops print a newline
+        tie_loops(ck, model)
+        tie_service(ck, model)
+        n = oracle(ck)
     ck.notes.append("L3: %d real-thread scenarios, hard time limit %.0f s per thread" % (n, HANG_TIMEOUT))
